@@ -23,6 +23,7 @@ import scopecorr
 import corecorr
 import heapcorr
 import collcorr
+import funcorr
 
 LEVEL = "proof"
 FINDINGS = os.path.join(C.VERIF, "findings", "C01")
@@ -202,6 +203,19 @@ def check(ctx, build=None):
                     found = True
                     ctx.violation("counterexample", "collections: native Go and the emitted GooseLang disagree on a program of maps, slices, append, copy and range loops",
                                   {"proto": "coll", "seed": ts, "function": bad["function"], "go_source": bad["go"], "tokens": bad.get("line")},
+                                  expected={"go": bad.get("native_go")}, observed={"gooselang": bad.get("interpreter_on_emitted"), "model_target_semantics": bad.get("model_target_semantics"), "model_go_semantics": bad.get("model_go_semantics")})
+        # ---- the model of functions, several results, recursion, closures, methods and strings against the real translator
+        for ts in range(ctx.seed * 40 + 2100, ctx.seed * 40 + 2100 + (2 if ctx.tier == "quick" else 30)):
+            st, bad = funcorr.run(ts, 8, scratch)
+            for k, v in st.items():
+                if isinstance(v, int):
+                    stats["fun_" + k] += v
+            if bad and not any(b["name"].startswith("fun:") for b in build.broken):
+                build.broken.append({"kind": "correspondence", "name": "fun: Model.Fun.tr / its two semantics vs the tree goose emits / native Go / the interpreter", "detail": json.dumps(bad, default=str)[:2500]})
+                if "value" in bad.get("what", "") and bad.get("native_go") is not None and not found:
+                    found = True
+                    ctx.violation("counterexample", "functions: native Go and the emitted GooseLang disagree on a package of functions with several results, recursion, closures, methods and strings",
+                                  {"proto": "fun", "seed": ts, "function": bad.get("function"), "argument": bad.get("argument"), "go_source": bad.get("go"), "tokens": bad.get("line")},
                                   expected={"go": bad.get("native_go")}, observed={"gooselang": bad.get("interpreter_on_emitted"), "model_target_semantics": bad.get("model_target_semantics"), "model_go_semantics": bad.get("model_go_semantics")})
         # ---- known findings: replay the committed witnesses
         known = {e["key"]: e for e in C.load_known("C01") if e.get("status") == "known"}
